@@ -300,6 +300,40 @@ const (
 
 var curFloatMode = modeExact
 
+// constF64: the value as a float64 if it is a concrete, finite, exactly representable constant
+func constF64(f FVal) (float64, bool) {
+	if f.special() || f.den != nil || f.eps != nil || f.val == nil || f.val.op != "rat" {
+		return 0, false
+	}
+	v, exact := f.val.rat.Float64()
+	if !exact {
+		return 0, false
+	}
+	return v, true
+}
+
+// ieeeConst: both operands concrete doubles => the operation is performed in IEEE double arithmetic (round to
+// nearest even), exactly as the compiled code would; symbolic operands use the exact / abstract models
+func ieeeConst(op byte, a, b FVal) (FVal, bool) {
+	x, ok1 := constF64(a)
+	y, ok2 := constF64(b)
+	if !ok1 || !ok2 {
+		return FVal{}, false
+	}
+	var r float64
+	switch op {
+	case '+':
+		r = x + y
+	case '-':
+		r = x - y
+	case '*':
+		r = x * y
+	case '/':
+		r = x / y
+	}
+	return fconst(r), true
+}
+
 func epsAdd(a, b *Term) *Term {
 	if a == nil {
 		return b
@@ -361,6 +395,9 @@ func addSide(t *Term) {
 }
 
 func fAdd(a, b FVal) FVal {
+	if r, ok := ieeeConst('+', a, b); ok {
+		return r
+	}
 	if curFloatMode == modeAbstract {
 		if a.val.isConst() && b.val.isConst() && !a.special() && !b.special() {
 			return FVal{val: Add(a.val, b.val)}
@@ -397,6 +434,9 @@ func fNeg(a FVal) FVal {
 }
 
 func fSub(a, b FVal) FVal {
+	if r, ok := ieeeConst('-', a, b); ok {
+		return r
+	}
 	if curFloatMode == modeAbstract {
 		if a.val.isConst() && b.val.isConst() && !a.special() && !b.special() {
 			return FVal{val: Sub(a.val, b.val)}
@@ -434,6 +474,9 @@ func unsupported(format string, args ...interface{}) {
 }
 
 func fMul(a, b FVal) FVal {
+	if r, ok := ieeeConst('*', a, b); ok {
+		return r
+	}
 	if curFloatMode == modeAbstract {
 		if a.val.isConst() && b.val.isConst() && !a.special() && !b.special() {
 			return FVal{val: Mul(a.val, b.val)}
@@ -471,6 +514,9 @@ func fMul(a, b FVal) FVal {
 }
 
 func fDiv(a, b FVal) FVal {
+	if r, ok := ieeeConst('/', a, b); ok {
+		return r
+	}
 	if curFloatMode == modeAbstract {
 		if a.val.isConst() && b.val.isConst() && !a.special() && !b.special() && !isZero(b.val) {
 			return FVal{val: Div(a.val, b.val)}
